@@ -67,7 +67,7 @@ func (Prop) Assumptions() []string {
 // ---------------------------------------------------------------- generation
 
 var derivations = []string{"session", "session", "with_context", "debug", "begin"}
-var readFins = []string{"find", "find", "first", "take", "count", "pluck", "rows", "scan", "find_in_batches", "first_or_init", "count_direct", "count_direct", "pluck_direct", "rows_direct", "scan_direct", "last"}
+var readFins = []string{"find", "find", "first", "take", "count", "pluck", "rows", "scan", "find_in_batches", "first_or_init", "count_direct", "count_direct", "pluck_direct", "rows_direct", "scan_direct", "last", "row_direct", "row_direct", "row"}
 var writeFins = []string{"update", "updates", "delete", "create", "update_direct"}
 var methods = []string{"model", "model", "where", "where", "where", "or", "not", "select", "omit", "order", "order", "limit", "offset", "group", "having", "joins", "joins", "distinct", "unscoped", "scopes", "preload", "returning", "returning", "order_clause", "locking", "on_conflict", "table", "model", "attrs", "assign", "where_sub", "where_group", "where_group", "table", "from_clause", "group_clause", "limit_clause", "insert_modifier", "inner_joins", "select_expr", "omit_assoc"}
 
@@ -493,6 +493,25 @@ func finish(e *env.Env, db *gorm.DB, ch Chain, dry bool) (o obs) {
 			}
 			rows.Close()
 			o.Rows = fmt.Sprint(n)
+		}
+	case "row_direct", "row":
+		h := db
+		if ch.End == "row" {
+			h = db.Model(&fam.User{})
+		}
+		row := h.Select("name").Row()
+		if ch.End == "row_direct" {
+			row = db.Row() // straight on the handle, no chain method in between
+		}
+		tx = db
+		if row != nil {
+			var name string
+			if err := row.Scan(&name); err != nil {
+				o.Err = firstLine(err.Error())
+			}
+			o.Rows = name
+		} else {
+			o.Rows = "<nil row>"
 		}
 	case "scan_direct":
 		var us []fam.User
